@@ -389,6 +389,46 @@ func (r *c13Run) check(quiescent bool) []c13Verdict {
 		out = append(out, c13Verdict{"taskpool/duplicate-execution", fmt.Sprintf("task %d executed %d times", dup[0].ID, dup[0].execs.Load()),
 			map[string]any{"task": dup[0]}})
 	}
+	if len(lost) > 0 && !quiescent {
+		// Conservation at a stalled pool: every accepted task is executed, running, or still held by
+		// a queue of the table (channel or overflow FIFO, read under the queue's own enqueue lock).
+		// Three agreeing samples, each taken after the watchdog already saw no progress, in which no
+		// task runs and the table holds fewer pending tasks than were accepted and never executed,
+		// mean tasks were dropped (they are nowhere), not merely slow.
+		stable := true
+		pendingMax := 0
+		for sample := 0; sample < 3 && stable; sample++ {
+			pending, running := 0, int32(0)
+			r.pool.queues.Range(func(_, v any) bool {
+				q := v.(*UdpTaskQueue)
+				q.enqueueMu.Lock()
+				pending += len(q.ch) + len(q.overflow)
+				q.enqueueMu.Unlock()
+				return true
+			})
+			for i := range r.running {
+				running += r.running[i].Load()
+			}
+			still := 0
+			for _, t := range lost {
+				if t.execs.Load() == 0 {
+					still++
+				}
+			}
+			if pending > pendingMax {
+				pendingMax = pending
+			}
+			if running != 0 || pending >= still || still != len(lost) {
+				stable = false
+			}
+			time.Sleep(100 * time.Millisecond)
+		}
+		if stable {
+			out = append(out, c13Verdict{"taskpool/lost-task-dropped",
+				fmt.Sprintf("%d accepted task(s) never executed and are in no queue: no task is running and the queues of the table hold at most %d pending task(s) (first: task %d flow %d)", len(lost), pendingMax, lost[0].ID, lost[0].Flow),
+				map[string]any{"lost_first": lost[0], "lost": len(lost), "pending_in_table_max": pendingMax}})
+		}
+	}
 	if len(lost) > 0 && quiescent {
 		// autopsy: positive location of the lost tasks
 		r.autopsyOn.Store(true)
